@@ -521,6 +521,8 @@ func TransformJSONProtoToDSL(model *openfgav1.AuthorizationModel, opts ...Transf
 	}
 
 	if isModularModel {
+		// sort a copy: the caller's model must not be reordered (and may be shared between goroutines)
+		typeDefs = slices.Clone(typeDefs)
 		slices.SortStableFunc(typeDefs, func(a, b *openfgav1.TypeDefinition) int {
 			return sortByModule(
 				a.GetType(), b.GetType(),
